@@ -53,7 +53,11 @@ META = {
     "block is refused even when that block lies outside the window; np.can_cast for all five rules validated exhaustively.  "
     "Decided observations (Props/C04Pin): chunk tuples that do not add up to the GeoBox are REFUSED (fix2-C04, gbtInitR: a "
     "constructed tiled GeoBox always has its GeoBox as base); negative tile sizes, block keys naming one tile twice (later "
-    "block wins) and over-long index tuples are outside the property's quantifier and pinned as they are.",
+    "block wins) and over-long index tuples are outside the property's quantifier and pinned as they are.  Final increment: "
+    "the VALUES of extract(dtype=narrower) on integer tiles (Props/C04CastV: pasting commutes with any cell-wise "
+    "conversion - extract_mapVal - so every cell is the wrapped mosaic cell; castInt = numpy's integer astype, validated at "
+    "every range edge and on extracted windows), numpy scalars inside BlockAssembler windows and at GeoboxTiles[] / .roi / "
+    "pix_bbox / chunk_shape in the bounded-width model (Props/C04NpWin: refused after the length test, chunk_shape converts).",
     "note": "Trusted: Lean kernel + {propext, Classical.choice, Quot.sound}; Spec/NpArray (numpy searchsorted, "
     "int indexing, tuple slicing, copyto of equal-length slices) validated against numpy each run; numpy "
     "dtype promotion is modelled as reference semantics (Model/C04Dtype: resultTypeL, safeCast, minScalar*, fullRaises), the "
